@@ -263,6 +263,30 @@ func c20Oracle(info *runInfo, res *verifsim.Result) {
 		}
 	}
 
+	// nothing but a signal or a failing task stops the others: a task that returns
+	// without an error (it had nothing to do) leaves everybody else running
+	{
+		var cause *verifsim.Event
+		if sigEv != nil {
+			cause = sigEv
+		}
+		if firstFail != nil && (cause == nil || firstFail.exit.Seq < cause.Seq) {
+			cause = firstFail.exit
+		}
+		for _, s := range names {
+			t := tasks[s]
+			if t.cancelled != nil && (cause == nil || t.cancelled.Seq < cause.Seq) && (final == nil || t.cancelled.Seq < final.Seq) {
+				res.Violate("C20.signal", "spurious-cancel", "task %s saw its context cancelled at %s although no signal had arrived and no task had failed", s, ms(t.cancelled.T))
+				break
+			}
+		}
+		if cause == nil || serveExit.Seq < cause.Seq {
+			if final == nil || serveExit.Seq < final.Seq {
+				res.Violate("C20.signal", "spurious-return", "Serve returned at %s although no signal had arrived and no task had failed", ms(serveExit.T))
+			}
+		}
+	}
+
 	// cancelall: once the first task failed, every scripted task still running sees its context cancelled at once
 	if firstFail != nil && !signalFirst {
 		for _, s := range names {
